@@ -87,7 +87,7 @@ pub fn run(seed: u64, n: usize, bin: &str, scratch: &str, driver: &str, out: &st
         let dir = root.join(format!("case{}", k));
         std::fs::create_dir_all(&dir).unwrap();
         // ---- files ----
-        let nfiles = if (1..=7).contains(&k) { 1 } else { match rng.below(4) { 0 => 1, 1 => 1, 2 => 2, _ => 3 } };
+        let nfiles = if (1..=7).contains(&k) { 1 } else if k == 9 { 1 } else if k == 10 { 2 } else { match rng.below(4) { 0 => 1, 1 => 1, 2 => 2, _ => 3 } };
         let mut inputs: Vec<String> = vec![];
         let mut used: Vec<&str> = vec![];
         for _ in 0..nfiles {
@@ -192,7 +192,12 @@ pub fn run(seed: u64, n: usize, bin: &str, scratch: &str, driver: &str, out: &st
         }
         // sometimes a pre-existing sibling, a directory, or a missing input
         let mut missing = false;
-        match if special || k == 8 { 7 } else { rng.below(8) } {
+        if k == 9 || k == 10 {
+            // a missing input AFTER readable ones (k = 9: --minimal, k = 10: plain report)
+            inputs.push(dir.join("missing.txt").to_string_lossy().to_string());
+            missing = true;
+        }
+        match if special || (8..=10).contains(&k) { 7 } else { rng.below(8) } {
             0 => {
                 std::fs::write(dir.join("a.windows-1251.txt"), b"existing sibling").unwrap();
             }
@@ -209,7 +214,7 @@ pub fn run(seed: u64, n: usize, bin: &str, scratch: &str, driver: &str, out: &st
             _ => {}
         }
         // ---- flags ----
-        let fl = match if k == 1 || k == 3 || k == 7 || k == 8 { 3 } else if k == 2 || k == 4 { 9 } else if k == 5 { 7 } else if k == 6 { 3 } else { rng.below(10) } {
+        let fl = match if k == 1 || k == 3 || k == 7 || k == 8 { 3 } else if k == 2 || k == 4 || k == 10 { 9 } else if k == 5 || k == 9 { 7 } else if k == 6 { 3 } else { rng.below(10) } {
             0 => Flags { normalize: false, replace: true, force: false, minimal: false, alternatives: false, threshold: None },
             1 => Flags { normalize: true, replace: false, force: true, minimal: false, alternatives: false, threshold: None },
             2 => Flags { normalize: false, replace: false, force: false, minimal: false, alternatives: false, threshold: Some(*rng.pick(&[1.5f32, -0.25, 2.0])) },
